@@ -251,7 +251,7 @@ func runOneJob(self, logDir string, idx int, job Job) *JobRes {
 			if i := strings.Index(first, "\n"); i >= 0 {
 				first = first[:i]
 			}
-			if !(strings.HasPrefix(first, "panic:") || strings.HasPrefix(first, "fatal error:")) {
+			if !(strings.HasPrefix(first, "panic:") || strings.HasPrefix(first, "fatal error:") || strings.HasPrefix(first, "DEADLOCK:")) {
 				first = "no panic line in the log"
 			}
 			res.Died = fmt.Sprintf("child process died (exit %d, err %v): %s; last step: %s", code, err, first, lastStep(lf))
